@@ -219,6 +219,8 @@ def procLabel (F : Flat) (i : Nat) : String :=
 /-- order the processes so that writers come before readers where possible (Kahn on variable names);
     the settled store does not depend on the order (`settle` sweeps until nothing changes), this only
     saves sweeps -/
+instance : Inhabited Proc := ⟨⟨.comb, "", .skip⟩⟩
+
 def topoProcs (Γ : Env) (ps : List Proc) : List Proc := Id.run do
   let arr := ps.toArray
   let n := arr.size
